@@ -10,6 +10,7 @@ use tmelcrypt::HashVal;
 
 mod util;
 use util::*;
+mod c20;
 
 thread_local! {
     pub static LAST_PANIC: std::cell::RefCell<String> = Default::default();
@@ -64,6 +65,8 @@ fn main() {
     for r in reqs.iter() {
         let out = match r["kind"].as_str().unwrap_or("") {
             "c17" => c17(r),
+            "c20_recount" => c20::c20_recount(r),
+            "c20_ops" => c20::c20_ops(r),
             other => json!({"error": format!("unknown kind {other}")}),
         };
         outs.push(out);
